@@ -237,10 +237,12 @@ fn check_world(w: &World, step: usize, line: &str, before_anom: usize) {
     for (hi, h) in w.hs.iter().enumerate() {
         let Some(h) = h else { continue };
         let check_map = |m: &Map, list: &[usize], what: &str| {
+            // handles obtained from the replaceable memory are C11's business, plain maps C10's
+            let (prop, cls_changed): (&'static str, &str) = if what == "map" { ("C10", "C10/old-map-changed") } else { ("C11", "C11/stability") };
             let got: Vec<(u64, u64)> = m.iter().map(|r| (r.start_addr().0, r.len())).collect();
             let want: Vec<(u64, u64)> = list.iter().map(|&i| (w.regs[i].base, w.regs[i].size as u64)).collect();
             if got != want || m.num_regions() != want.len() {
-                cx().violate("C10", "C10/old-map-changed", format!("{} lists other regions", what), format!("step {} {}: handle {} ({}) lists {:x?}, the model says {:x?}", step, line, hi, what, got, want));
+                cx().violate(prop, cls_changed, format!("{} lists other regions", what), format!("step {} {}: handle {} ({}) lists {:x?}, the model says {:x?}", step, line, hi, what, got, want));
                 return;
             }
             for w2 in got.windows(2) {
@@ -253,12 +255,12 @@ fn check_world(w: &World, step: usize, line: &str, before_anom: usize) {
                 let mut buf = vec![0u8; r.size.min(8)];
                 let res = m.read(&mut buf, GuestAddress(r.base));
                 if !matches!(res, Ok(n) if n == buf.len()) || buf != tag(r.id, r.size) {
-                    cx().violate("C10", "C10/old-map-changed", format!("{} reaches other memory", what), format!("step {} {}: through handle {} ({}) region #{} at {:#x} reads {:02x?} ({:?}), expected its tag {:02x?}", step, line, hi, what, r.id, r.base, buf, res.map_err(|e| format!("{:?}", e)), tag(r.id, r.size)));
+                    cx().violate(prop, cls_changed, format!("{} reaches other memory", what), format!("step {} {}: through handle {} ({}) region #{} at {:#x} reads {:02x?} ({:?}), expected its tag {:02x?}", step, line, hi, what, r.id, r.base, buf, res.map_err(|e| format!("{:?}", e)), tag(r.id, r.size)));
                     return;
                 }
                 let host = m.get_host_address(GuestAddress(r.base)).map(|p| p as usize).unwrap_or(0);
                 if host != r.host {
-                    cx().violate("C10", "C10/old-map-changed", format!("{} host address changed", what), format!("step {} {}: handle {} maps region #{} at another host address", step, line, hi, r.id));
+                    cx().violate(prop, cls_changed, format!("{} host address changed", what), format!("step {} {}: handle {} maps region #{} at another host address", step, line, hi, r.id));
                 }
             }
         };
@@ -281,7 +283,7 @@ fn check_world(w: &World, step: usize, line: &str, before_anom: usize) {
             H::Inner(a, l) => check_map(a, l, "into_inner handle"),
             H::Atomic(a, ai) => {
                 let g = in_mode(Mode::Setup, || a.memory());
-                check_map(&g, &w.atomics[*ai], "current map of the replaceable memory");
+                check_map(&g, &w.atomics[*ai], "current map of the replaceable memory (a snapshot taken now)");
             }
         }
     }
